@@ -7,8 +7,9 @@ from geom import fd_glyphs_json
 from ufo import build, rat
 
 ID = "C01"
-PROOF_FILES = ["Geom", "Reverse", "Render", "RenderExact", "GoodCert", "C01", "C01Skip"]
-THEOREM = "Ufo2ft.C01.C01_outline / C01_round / C01_advance (+ shared Geom/Reverse/Render theorems)"
+PROOF_FILES = ["Geom", "Reverse", "Render", "RenderExact", "GoodCert", "C01", "C01Skip", "C01Codec"]
+THEOREM = ("Ufo2ft.C01.C01_outline / C01_round / C01_advance / C01_codec_roundtrip / C01_codec_no_drift / C01_codec_integral / "
+           "C01_codec_charstring / C01_codec_cff2 / C01_codec_glyph (+ shared Geom/Reverse/Render theorems)")
 N = {"quick": 250, "thorough": 5000}
 RULE = ("random fonts: closed contours of line / cubic / quadratic segments on a 1/8 grid with 30% half-integer and 25% negative "
         "coordinates (quadratics only with roundTolerance None/0.5 and only when no elevated control point is within 1e-6 of a rounding "
@@ -89,6 +90,43 @@ def _ops(tt, name):
     return out
 
 
+def _tok(t):
+    if isinstance(t, str):
+        return t
+    if isinstance(t, (int, float)) and not isinstance(t, bool):
+        return rat(t)
+    return "?" + type(t).__name__
+
+
+def _programs(tt):
+    """the RAW charstring program of every glyph: operands as exact rationals, operators by name"""
+    tag = "CFF " if "CFF " in tt else "CFF2"
+    top = tt[tag].cff.topDictIndex[0]
+    out = {}
+    for n in tt.getGlyphOrder():
+        cs = top.CharStrings[n]
+        cs.decompile()
+        out[n] = [_tok(t) for t in cs.program]
+    dn = None
+    if tag == "CFF ":
+        dn = [top.Private.defaultWidthX, top.Private.nominalWidthX]
+    return out, dn
+
+
+def _auto_widths(fd, skip):
+    """fontTools.cffLib.width.optimizeWidths is external: its choice is an INPUT of the width model (C12.defNom)"""
+    from fontTools.cffLib.width import optimizeWidths
+    from fontTools.misc.roundTools import otRound
+    ws = [g["width"] for g in fd["glyphs"] if g["name"] not in skip]
+    if not any(g["name"] == ".notdef" for g in fd["glyphs"]):
+        ws.append(otRound(fd.get("upm", 1000) * 0.5))     # makeMissingRequiredGlyphs: the synthesised .notdef
+    try:
+        d, n = optimizeWidths(sorted(otRound(w) for w in ws))
+        return [int(d), int(n)]
+    except Exception:
+        return [0, 0]
+
+
 def run(case):
     import ufo2ft
     from fontTools.ttLib import TTFont
@@ -102,13 +140,24 @@ def run(case):
     obs = {"err": None}
     try:
         tt = ufo2ft.compileOTF(font, **kw)
+        mem, _ = _programs(tt)
         buf = io.BytesIO(); tt.save(buf); buf.seek(0)
         tt = TTFont(buf)
-        obs["glyphs"] = [[n, _ops(tt, n), tt["hmtx"][n][0]] for n in tt.getGlyphOrder() if n != ".notdef" or any(g["name"] == ".notdef" for g in fd["glyphs"])]
+        progs, dn = _programs(tt)
+        obs["glyphs"] = [[n, _ops(tt, n), tt["hmtx"][n][0], progs[n]] for n in tt.getGlyphOrder()
+                         if n != ".notdef" or any(g["name"] == ".notdef" for g in fd["glyphs"])]
+        obs["dn"] = dn
+        obs["tag"] = 1 if "CFF " in tt else 2
+        # the binary number encoding (fontTools compile/decompile) returned the tokens the compiler produced
+        obs["binary_ok"] = mem == progs
     except Exception as e:
         obs = {"err": type(e).__name__}
     tol = 0.5 if case["tol"] is None else case["tol"]
-    inp = {"tol": rat(tol), "glyphs": fd_glyphs_json(fd), "skip": case["skip"]}
+    info = fd.get("info", {})
+    inp = {"tol": rat(tol), "glyphs": fd_glyphs_json(fd), "skip": case["skip"], "cff": case["cff"],
+           "auto": _auto_widths(fd, case["skip"]),
+           "infoD": None if info.get("postscriptDefaultWidthX") is None else rat(info["postscriptDefaultWidthX"]),
+           "infoN": None if info.get("postscriptNominalWidthX") is None else rat(info["postscriptNominalWidthX"])}
     neg = any(t[0] * t[3] - t[1] * t[2] < 0 for g in fd["glyphs"] for _, t in g["components"])
     halves = any((p[0] * 2) % 2 == 1 or (p[1] * 2) % 2 == 1 for g in fd["glyphs"] for c in g["contours"] for p in c) or \
         any((g["width"] * 2) % 2 == 1 for g in fd["glyphs"])
@@ -124,7 +173,21 @@ def agree(req, rep):
     mg = {g[0]: g for g in m["glyphs"]}
     if sorted(mg) != sorted(g[0] for g in o["glyphs"]):
         return False
-    return all(mg[g[0]] == g for g in o["glyphs"])
+    if not all(mg[g[0]] == g for g in o["glyphs"]):        # outline, advance AND the raw program, token for token
+        return False
+    if o.get("tag") != req["in"]["cff"] or not o.get("binary_ok"):
+        return False
+    if o["tag"] == 1 and o.get("dn") != m.get("dn"):
+        return False
+    # the Lean Type 2 interpreter on the OBSERVED program draws what fontTools' interpreter drew, and recovers the advance
+    dec = {d[0]: d for d in m.get("dec", [])}
+    for g in o["glyphs"]:
+        d = dec.get(g[0])
+        if d is None or d[1] != g[1]:
+            return False
+        if o["tag"] == 1 and d[2] != str(g[2]):
+            return False
+    return True
 
 
 def shrink(case):
